@@ -33,6 +33,8 @@ def _mo(which):
 
     if which == "mo_r":
         return MolecularOrbitals("restricted", 2, 2, occs=np.array([2.0, 0.0]), coeffs=np.eye(2))
+    if which == "mo_noocc":  # orbitals without occupation numbers (occs is optional): electron count and spin are undefined
+        return MolecularOrbitals("restricted", 2, 2, coeffs=np.eye(2))
     return MolecularOrbitals("unrestricted", 2, 1, occs=np.array([1.0, 1.0, 1.0]), coeffs=np.ones((2, 3)))
 
 
@@ -69,7 +71,7 @@ EXTRA_OPS = [
     ("atcorenums", ("list", [1.0, 1.0])), ("atcorenums", ("list", [1.0, 1.0, 1.0])), ("atcorenums", ("nd", [6.0, 0.0])),
     ("charge", ("npf", 1.0)), ("charge", -1), ("charge", 0.5),
     ("spinpol", 0),
-    ("mo", ("mo", "mo_u")),
+    ("mo", ("mo", "mo_u")), ("mo", ("mo", "mo_noocc")),
     ("atmasses", None), ("atmasses", ("nd", [1.0, 2.0])), ("atmasses", ("nd", [1.0, 2.0, 3.0])),
     ("atgradient", None), ("atgradient", ("coords", 2)), ("atgradient", ("coords", 3)),
     ("atfrozen", None), ("atfrozen", ("nd", [True, False], "bool")), ("atfrozen", ("nd", [True, False, True], "bool")),
@@ -92,6 +94,7 @@ def constructors():
         {"spinpol": 1}, {"atnums": ("nd", [1, 1], "int"), "spinpol": 1, "charge": 0},
         {"mo": ("mo", "mo_r")}, {"mo": ("mo", "mo_r"), "atnums": ("nd", [1, 1], "int")},
         {"mo": ("mo", "mo_u"), "atcorenums": ("nd", [2.0, 2.0])},
+        {"mo": ("mo", "mo_noocc"), "atnums": ("nd", [1, 1], "int")}, {"nelec": 3.0, "atnums": ("nd", [1, 1], "int")},
         {"atcoords": ("coords", 2)}, {"atcoords": ("coords", 3), "atnums": ("nd", [8, 1, 1], "int"), "charge": -0.5},
         {"atnums": ("list", [1, 1]), "atcorenums": ("list", [1.0, 1.0]), "charge": 0},
         {"atnums": ("nd", [], "int")}, {"atcoords": ("coords", 0), "charge": 0.5}, {"atnums": ("nd", [], "int"), "atcorenums": ("nd", [])},
